@@ -1,4 +1,4 @@
-import OsacaVerif.Lemmas.A64Vector
+import OsacaVerif.Lemmas.A64IdentFull
 import OsacaVerif.Lemmas.Text
 /-
   Memory references `[base]`, `[base, #imm]`, `[base, index]`, `[base, index, lsl #n]`, with `!` or a
@@ -308,6 +308,20 @@ theorem memMid_off (i : IntA) (g gv E : Txt) (hg : Blank g) (hgv : Blank gv) :
     exact registerIndex_none_nonalpha g c _ hg hws ha h123
   simp [memMid, hri, himm, har]
 
+/-- **identifier offset** (`#:lo12:name`, `name+8`, …) between base and closing bracket -/
+theorem memMid_ident (i : IdentA) (hok : IdentOk i) (g gv E : Txt) (hg : Blank g) (hgv : Blank gv) :
+    ∃ r', memMid (g ++ (identText i ++ (gv ++ 93 :: E))) = some (.off (.imm (.ident (identTok i))), r') ∧
+      skipWs r' = 93 :: E := by
+  have hfV := follow_bracket gv E hgv
+  have hskV : skipWs (gv ++ 93 :: E) = 93 :: E := by
+    rw [skipWs_blank_append gv _ hgv, skipWs_cons 93 _ (by decide)]
+  obtain ⟨r2, himm, hsk2, _⟩ := immediate_identFull g i (gv ++ 93 :: E) hg hok hfV
+  have har := arithP_none_of_immediate _ (gv ++ 93 :: E) _ _ himm hsk2 hfV
+  have hreg := registerP_none_identFull g i (gv ++ 93 :: E) hg hok hfV
+  refine ⟨r2, ?_, by rw [hsk2, hskV]⟩
+  have hri : registerIndex (g ++ (identText i ++ (gv ++ 93 :: E))) = none := by simp [registerIndex, hreg]
+  simp [memMid, hri, himm, har]
+
 theorem memMid_bracket (E : Txt) : memMid (93 :: E) = none := by
   have hws : isWs 93 = false := by decide
   have h1 := registerIndex_none_nonalpha [] 93 E blank_nil hws (by decide) (by decide)
@@ -350,13 +364,13 @@ theorem memPieces_eq (m : MemA) :
 def MidOk : MemMidA → Prop
   | .none => True
   | .off (.int _) => True
-  | .off (.ident _) => False
+  | .off (.ident i) => IdentOk i
   | .idx r s => MemRegOk r ∧ ∀ x, s = some x → lower x.op ∈ scaleOps
 
 def midTok : MemMidA → Option MemMid
   | .none => none
   | .off (.int i) => some (.off (.imm (.num (optNeg i.neg ++ intDigits i))))
-  | .off (.ident _) => none
+  | .off (.ident i) => some (.off (.imm (.ident (identTok i))))
   | .idx r s => some (.idx (idxTok r (toW s)))
 
 theorem innerOk_cons {p : Piece} {ps : List Piece} {gs : List Txt} (h : InnerOk (p :: ps) gs) :
@@ -445,6 +459,20 @@ theorem mid_step (mid : MemMidA) (hmid : MidOk mid) (gs : List Txt) (hgs : Inner
       exact shiftOp_none_nonalpha g' c _ hg' hws ha
     · rw [optLit_gap_comma gc _ hgc, optP_some true memMid _ _ _ (memMid_off i g' gv E hg' hgv)]
       rfl
+  | .off (.ident i), hi =>
+    have hok : IdentOk i := hi
+    obtain ⟨gc, gs1, rfl, hgc, h1⟩ := innerOk_cons hgs
+    obtain ⟨g', gs2, rfl, hg', h2⟩ := innerOk_cons h1
+    have : gs2 = [] := h2
+    subst this
+    have htext : joinInner (midPieces (.off (.ident i))) [gc, g'] ++ (gv ++ 93 :: E) =
+        gc ++ 44 :: (g' ++ (identText i ++ (gv ++ 93 :: E))) := by
+      simp [midPieces, offPieces, joinInner, List.append_assoc]
+    rw [htext]
+    obtain ⟨r', hmm, hsk⟩ := memMid_ident i hok g' gv E hg' hgv
+    refine ⟨stops_gap_comma _ gc _ hgc (by decide), ?_, r', ?_, hsk⟩
+    · exact shiftTail_comma gc _ hgc ((goodRest_identFull i hok).noShift g' (gv ++ 93 :: E) hg' hfV)
+    · rw [optLit_gap_comma gc _ hgc, optP_some true memMid _ _ _ hmm]; rfl
   | .idx r s, hm =>
     obtain ⟨hr, hs⟩ := hm
     obtain ⟨gc, gs1, rfl, hgc, h1⟩ := innerOk_cons hgs
